@@ -21,7 +21,10 @@ H = "name a\nversion 1.0\ntarget g\n\n"
 H0 = "name a\nversion 0.5\n\n"     # template without a target, and with a version that is not the default
 FORMS = ["{P}", "-{P}", "2*{P}", "{P}+1", "2*{P}-1", "{P}/2", "1-{P}", "0.1*{P}", "0.75"]
 GATES = [("G", [0]), ("H", [1]), ("K", [0, 1]), ("G", [2]), ("K", [1, 2]), ("G", [1]), ("K", [1, 0])]
-VALUE_CLASSES = {"dyadic": [0.5, -1.25], "integer": [2, 7], "generic": [0.1, 1 / 3], "generic2": [1e-3, 3.141592653589793], "large": [123.456, -0.7]}
+VALUE_CLASSES = {"dyadic": [0.5, -1.25], "integer": [2, 7], "generic": [0.1, 1 / 3], "generic2": [1e-3, 3.141592653589793], "large": [123.456, -0.7],
+                 "negative": [-1 / 3, -3.141592653589793], "negative2": [-0.321, -4.821], "negative-integer": [-3, -11]}
+# two-argument operations: a constant before / after the parametrised argument, and two parametrised arguments
+FORMS2 = [("0.45", "{P}"), ("0.785", "2*{P}-1"), ("{P}", "0.75"), ("{P}/2", "0.1"), ("1", "-{P}"), ("-0.5", "{P}+1"), ("2", "0.1*{P}")]
 
 
 def wires(m):
@@ -66,7 +69,8 @@ def ref_instance_possible(tops, pops):
 
 
 def body(gs, fs, ps):
-    return "".join("%s(%s) | %s\n" % (g, f.replace("P", p), m if len(m) > 1 else m[0]) for (g, m), f, p in zip(gs, fs, ps))
+    txt = lambda f, p: ", ".join(x.replace("P", p) for x in f) if isinstance(f, tuple) else f.replace("P", p)
+    return "".join("%s(%s) | %s\n" % (g, txt(f, p), m if len(m) > 1 else m[0]) for (g, m), f, p in zip(gs, fs, ps))
 
 
 def check_match(t, q, names, inst_args, label):
@@ -105,7 +109,7 @@ def case(c):
     import blackbird
     from blackbird.utils import match_template, TemplateError
     gs, fs, ps, vals, do_edits = c
-    notarget = (len(gs) + len("".join(fs)) + len(ps)) % 4 == 0     # a deterministic quarter of the templates has no target
+    notarget = (len(gs) + len("".join(f if isinstance(f, str) else "".join(f) for f in fs)) + len(ps)) % 4 == 0     # a deterministic quarter of the templates has no target
     src = (H0 if notarget else H) + body(gs, fs, ps)
     st, t = common.loads(src)
     if st == "exc":
@@ -222,6 +226,12 @@ def build(ctx):
     for (cname, vals), fs in itertools.product(classes, itertools.product(FORMS[:8], repeat=2)):
         cases.append((((("G", [0]), ("H", [1]))), fs, ("a", "a"), vals, False))
         cases.append((((("G", [0]), ("K", [0, 1]))), fs, ("a", "a"), vals[::-1], False))
+    # operations with two positional arguments (a constant next to a parametrised one, in both orders)
+    for i, f2 in enumerate(FORMS2):
+        for g in FORMS[:8:2] + ["0.75"]:
+            for (cname, vals) in classes:
+                cases.append(((("G", [0]), ("K", [0, 1])), (f2, g), ("a", "b"), vals, i == 0))
+                cases.append(((("K", [1, 0]), ("G", [1])), (g, f2), ("a", "a"), vals[::-1], False))
     # parameter names: names that mean something to SymPy or to the host language, and look-alikes of other tokens
     # (all plain NAME tokens of the grammar); each with every affine form, alone, repeated and next to the following name
     for i, nm in enumerate(HOST_NAMES):
